@@ -9,7 +9,7 @@ class C02Sched(SchedProp):
     props_files = ['Props/C02.v']
     row_fn = 'c02_row'
     preplaced_share = 0.1
-    clauses = ['exactly_requested_ranks', 'rank_shape', 'ranks_per_node', 'colocate_nodes', 'oversize_rejected']
+    clauses = ['exactly_requested_ranks', 'rank_shape', 'ranks_per_node', 'colocate_nodes', 'oversize_rejected', 'exclusive_tag_nodes']
     rule = ('random scheduler histories as for C01 (shapes: ranks 1-6, cores/rank 0-4 and oversize, GPU shares 1/4-3 '
             'and oversize, lfs/mem incl. oversize, ranks_per_node, colocate/exclusive tags) on reachable occupancy '
             'states; non-trivial = >= 2 tasks held simultaneously and >= 1 task waited')
